@@ -21,10 +21,12 @@ from lib import common, worker as wk
 
 
 class Violation(Exception):
-    def __init__(self, signature, detail=''):
+    """noshrink=True: a verdict that is expensive to re-establish (time-outs); the shard reports the original case as is."""
+    def __init__(self, signature, detail='', noshrink=False):
         Exception.__init__(self, signature)
         self.signature = signature
         self.detail = detail
+        self.noshrink = noshrink
 
 
 class Ctx:
@@ -88,14 +90,21 @@ def _shard(idx, nshards, modname=None, tier='quick', seconds=20, chunk=300, know
                   suppress_health_check=list(HealthCheck), phases=(Phase.generate, Phase.shrink))
         @given(strat)
         def prop(case):
+            if state.get('abort'):
+                raise state['abort'][0]
             state['last'] = case
             ctx.evaluations += 1
-            _run_check(mod, case, ctx)
+            try:
+                _run_check(mod, case, ctx)
+            except Violation as v:
+                if v.noshrink:
+                    state['abort'] = (v, case)
+                raise
 
         try:
             prop()
         except Violation as v:
-            failure = {'signature': v.signature, 'detail': v.detail, 'case': state['last']}
+            failure = {'signature': v.signature, 'detail': v.detail, 'case': state['abort'][1] if state.get('abort') else state['last']}
         except BaseException as e:   # bug in the harness itself: surface it, do not hide it
             failure = {'signature': 'harness-error:' + type(e).__name__, 'detail': traceback.format_exc()[-3000:], 'case': state['last']}
     if ctx.w:
@@ -200,13 +209,16 @@ def run(mod, tier, quick_s=25, thorough_s=600, chunk=300, extra_evidence=None):
         if k:
             hit_known.add(sig)
             continue
+        if sig in seen:          # one confirmed replay per signature is enough
+            ev.violations += 1
+            continue
         # reproduce three times on fresh workers before raising the alarm
         if 'path' in f:
             rp, ok = f['path'], True
         else:
             rp = common.save_replay(mod.PROP, '%s-%s.json' % (mod.PROP.lower(), common.sha(json.dumps(f['case'], sort_keys=True))),
                                     json.dumps({'signature': sig, 'case': f['case'], 'detail': f['detail']}, indent=1, ensure_ascii=False))
-            ok = all(replay_case(mod, f['case']) is not None for _ in range(3))
+            ok = all(replay_case(mod, f['case']) is not None for _ in range(1 if sig.startswith('termination:') else 3))
         if not ok and not sig.startswith('harness-error'):
             ev.inconclusive.append('failure %s did not reproduce 3x (%s)' % (sig, rp))
             continue
